@@ -10,11 +10,13 @@ readme = open(os.path.join(mdir, "README.txt")).read()
 demo = next((f for f in os.listdir(mdir) if f.startswith("demo") and (f.endswith(".go") or os.path.isdir(os.path.join(mdir, f)))), None)
 m = re.search(r"place(?:d)? at\s+`?([\w./\-]+\.go)`?", readme)
 dest = m.group(1) if m else None
-m = re.search(r"((?:cd [\w./\-]+ && )?(?:GOFLAGS=\S* )?(?:GOPROXY=off )?go test [^\n]*-run [^\n]*)", readme)
+m = re.search(r"((?:cd [\w./\-]+ && )?(?:\w+=\S* )*go test [^\n]*-run [^\n]*)", readme)
 cmd = m.group(1).strip().rstrip("`") if m else None
 print("demo", demo, "dest", dest, "cmd", cmd, flush=True)
 if not (demo and dest and cmd):
     print("CANNOT PARSE README"); sys.exit(3)
+if dest.startswith("infs/") and not cmd.startswith("cd "):
+    cmd = "cd infs && " + cmd
 if "GOFLAGS=" not in cmd:
     cmd = cmd.replace("go test", "GOFLAGS= GOPROXY=off go test", 1)
 wt = "/var/tmp/mev-%d" % os.getpid()
@@ -33,7 +35,7 @@ try:
     rc1, out1 = sh(cmd, wt); meta["demo_with_change_rc"] = rc1
     meta["demo_confirmed"] = (rc0 == 0 and rc1 != 0)
     os.remove(os.path.join(wt, dest))
-    touched = sorted({l.split()[-1][2:].rsplit("/", 1)[0] for l in open(os.path.join(mdir, "patch.diff")) if l.startswith("+++ b/")})
+    touched = sorted({(l.split()[-1][2:].rsplit("/", 1)[0] if "/" in l.split()[-1][2:] else ".") for l in open(os.path.join(mdir, "patch.diff")) if l.startswith("+++ b/")})
     meta["touched"] = touched
     if not notests:
         res = {}
